@@ -58,7 +58,7 @@ static void FuncCHARFROMSTR(
     as_tempres_set_int(
             pResult, ((pArgs[1].Contents.Int >= 0)
                       && (pArgs[1].Contents.Int < (LargeInt)pArgs[0].Contents.str.len))
-                             ? pArgs[0].Contents.str.p_str[pArgs[1].Contents.Int]
+                             ? (unsigned char)pArgs[0].Contents.str.p_str[pArgs[1].Contents.Int]
                              : -1);
 }
 
